@@ -2311,8 +2311,13 @@ impl Archive {
         // MPQ layout of sector checksums: the data starts right behind a table of sector_count + 2
         // entries; the sector behind the last data sector holds one ADLER32 per sector, taken over
         // the sector as stored (after decryption, before decompression); 0 means "no checksum".
-        let standard_crc_layout =
-            file_info.has_sector_crc() && sector_offsets[0] as usize == offset_table_size + 4;
+        // Either fact identifies it: the first sector starts right behind the sector_count + 2 entries,
+        // or the end of the checksum sector is the block's compressed size. Requiring only one keeps a
+        // damaged first offset from switching the verification off (the misplaced sector then fails its
+        // checksum instead of being returned as content).
+        let standard_crc_layout = file_info.has_sector_crc()
+            && (sector_offsets[0] as usize == offset_table_size + 4
+                || (crc_sector_end != 0 && crc_sector_end as u64 == file_info.compressed_size));
 
         log::debug!(
             "Sector offsets: first={}, last={}",
@@ -2352,6 +2357,13 @@ impl Archive {
                         .map(|c| u32::from_le_bytes([c[0], c[1], c[2], c[3]]))
                         .collect(),
                 );
+            } else if stored != 0 || crc_sector_end < sector_offsets[sector_count] {
+                // An empty checksum sector means "no checksums"; anything else that cannot be a
+                // checksum sector is a damaged offset table and must not silently switch the
+                // verification off
+                return Err(Error::invalid_format(format!(
+                    "Invalid checksum sector: start={start}, end={crc_sector_end}, sectors={sector_count}"
+                )));
             }
         } else if file_info.has_sector_crc() {
             self.reader
